@@ -114,19 +114,17 @@ structure Pending where
   stopNote : Option (Nat × Nat)
 deriving DecidableEq, Repr, Inhabited
 
-/-- `ongoing` restricted to one kind: key `(isStartKey, number)` -/
-abbrev Ongoing := List ((Bool × Nat) × Pending)
+/-- `ongoing` restricted to one kind: a dict with keys `(isStartKey, number)`; the importer only ever
+    gets, pops and sets single keys, so the dict is the function from keys to values -/
+abbrev Ongoing := Bool × Nat → Option Pending
 
-def ofind (k : Bool × Nat) : Ongoing → Option Pending
-  | [] => none
-  | (k', p) :: rest => if k' = k then some p else ofind k rest
+def ofind (k : Bool × Nat) (o : Ongoing) : Option Pending := o k
 
-def oerase (k : Bool × Nat) : Ongoing → Ongoing
-  | [] => []
-  | (k', p) :: rest => if k' = k then oerase k rest else (k', p) :: oerase k rest
+/-- `ongoing.pop(k)` / `del ongoing[k]` -/
+def oerase (k : Bool × Nat) (o : Ongoing) : Ongoing := fun k' => if k' = k then none else o k'
 
 /-- `ongoing[k] = p` (replaces an existing entry) -/
-def oset (k : Bool × Nat) (p : Pending) (o : Ongoing) : Ongoing := oerase k o ++ [(k, p)]
+def oset (k : Bool × Nat) (p : Pending) (o : Ongoing) : Ongoing := fun k' => if k' = k then some p else o k'
 
 structure PState where
   ongoing : Ongoing
@@ -134,7 +132,6 @@ structure PState where
   done : List (Nat × Nat)
   /-- ranges overwritten in `ongoing` while still open (they stay in the part half-open) -/
   lost : List Pending
-deriving DecidableEq, Repr, Inhabited
 
 /-- One element.  `checkTime = true` is `handle_slurs` (a stop kept from before is dropped when its
     note starts before the starting note; a start is dropped when it starts after the stopping note),
@@ -207,7 +204,7 @@ def groupByNote : List Mark → List (List Mark)
 
 /-- the reader over a whole part: note by note, each note's elements in `noteOrder` -/
 def readMarks (checkTime : Bool) (ms : List Mark) : PState :=
-  pairAll checkTime { ongoing := [], done := [], lost := [] } ((groupByNote ms).flatMap noteOrder)
+  pairAll checkTime { ongoing := fun _ => none, done := [], lost := [] } ((groupByNote ms).flatMap noteOrder)
 
 /-! ### reader: ties by pitch -/
 
